@@ -205,7 +205,60 @@ def run_real(env_cls, src, datas, rename=None):
     return outs, None
 
 
+def lv_script(src, expected):
+    return ("import jinja2\n"
+            f"src = {src!r}\n"
+            "try:\n"
+            "    got = jinja2.Environment().from_string(src).render()\n"
+            "except Exception as e:\n"
+            "    got = 'raises ' + type(e).__name__ + ': ' + str(e)\n"
+            "print('source  :', src)\n"
+            "print('got     :', repr(got))\n"
+            f"print('expected:', {expected!r})\n")
+
+
+def shard_lv(arg) -> core.Part:
+    """loop-variable visibility family: nests of for loops whose `loop` is read only through
+    the chosen readers, against plain Python loop counters."""
+    _, depth, readers, kmax, k, K = arg
+    import jinja2
+
+    p = core.Part()
+    for idx, levels in enumerate(G.lv_programs(depth, readers, kmax)):
+        if idx % K != k:
+            continue
+        p.evals += 1
+        p.count("loopvis_programs")
+        src = G.lv_source(levels)
+        exp = G.lv_expected(levels)
+        wrappers = sorted({w for lv in levels for w, _ in lv})
+        indirect = [i for i, lv in enumerate(levels) if lv and all(w in ("macro", "macro2", "callblock") for w, _ in lv)]
+        if indirect:
+            p.count("loopvis_closure_only_level")  # a loop whose `loop` is read only from macro / call-block bodies
+            if any(i > 0 and any(w == "direct" for w, _ in levels[i - 1]) for i in indirect):
+                p.count("loopvis_closure_only_inside_direct")
+        try:
+            with cpu_alarm(30):
+                got = jinja2.Environment().from_string(src).render()
+        except core.CaseTimeout:
+            got = G.Failure("CaseTimeout")
+        except Exception as e:  # noqa: BLE001
+            got = G.Failure(type(e).__name__)
+        p.sig(("lv", depth, "+".join(wrappers), got.cls if isinstance(got, G.Failure) else "ok"))
+        if got != exp:
+            where = "closure-only" if indirect else "mixed"
+            p.violation("C03/loopvis/%s/%s" % (where, got.cls if isinstance(got, G.Failure) else "wrong-loop"), {
+                "msg": f"{src!r}: rendered {got!r}, each reader must report the loop it is written in: {exp!r}",
+                "source": src, "got": repr(got), "expected": repr(exp), "profile": "loopvis",
+                "script": lv_script(src, exp)})
+        if idx % 97 == k:
+            p.sample({"source": src, "output": repr(got)})
+    return p
+
+
 def shard(arg) -> core.Part:
+    if arg[0] == "loopvis":
+        return shard_lv(arg)
     profile, pool, nmax, nmin, k, K, nren, ncol, alternate = arg
     import jinja2
 
@@ -387,11 +440,27 @@ def run(ctx: core.Ctx):
         shards += [(profile, pool, nmax, 0, k, K, nren, ncol, alternate) for k in range(K)]
         bounds[profile] = {"pool": list(pool), "max_nodes": nmax, "max_nesting": 3,
                            "labels": {kk: len(v) for kk, v in G.alphabet(pool, profile).items()}}
+    # loop-variable visibility family (depth of the nest, readers, readers per level, shards)
+    if ctx.quick:
+        lv_plan = [(1, G.lv_readers(), 2, 2),
+                   (2, G.lv_readers(attrs=("index",), extra=(("direct", "length"), ("macro", "length"))), 2, 14)]
+    else:
+        lv_plan = [(1, G.lv_readers(), 3, 16),
+                   (2, G.lv_readers(), 2, 64),
+                   (3, G.lv_readers(attrs=("index",), extra=(("direct", "length"), ("macro", "length"))), 1, 16)]
+    for depth, readers, kmax, K in lv_plan:
+        shards += [("loopvis", depth, readers, kmax, k, K) for k in range(K)]
+    bounds["loopvis"] = [{"nest_depth": d, "readers": len(r), "max_readers_per_level": km} for d, r, km, _ in lv_plan]
     gc.collect()
     gc.freeze()  # the enumeration tables are permanent: keep the cyclic GC (and copy-on-write) off them
     ctx.pmap(shard, shards)
     ctx.cov["bounds"] = bounds
     ctx.cov["renamings_per_program"] = {"rule": "one per program, ordinary and NFKC-colliding alternately (alias profiles: one of each)",
                                         "menu": [n for n, _ in MENU], "colliding_menu": [n for n, _ in COLLIDE]}
+    ctx.cov["loopvis"] = {kk: ctx.counters.get(kk, 0) for kk in
+                          ("loopvis_programs", "loopvis_closure_only_level", "loopvis_closure_only_inside_direct")}
+    for kk, v in ctx.cov["loopvis"].items():
+        if not v:
+            raise core.HarnessError(f"loopvis family is vacuous: {kk} == 0")
     ctx.cov["programs"] = ctx.counters.get("programs", 0)
     ctx.cov["renamed_programs"] = ctx.counters.get("renamed_programs", 0)
